@@ -375,6 +375,8 @@ func areaCff(c *Ctx) {
 	c13GenEncodingBoundary(c)
 	c13GenOffsetSweep(c)
 	c13GenRealBoundary(c)
+	c13GenEncodingSubset(c)
+	c13GenCrossDefaults(c)
 }
 
 // mutate returns a damaged copy of data (truncation, bit flip, byte overwrite, count inflation).
@@ -2852,5 +2854,219 @@ func c13GenRealBoundary(c *Ctx) {
 			c.Stat("real_boundary", "whole font")
 			c13EmitFont(c, f, true)
 		}
+	}
+}
+
+// ---------------------------------------------------------------------------------------
+// built-in encodings that are a proper part of a predefined encoding (seeded change C10-r5m2)
+
+var c13StdGlyphNames = []string{"space", "exclam", "period", "comma", "hyphen", "colon", "zero", "one", "two", "three", "four",
+	"five", "six", "seven", "eight", "nine", "A", "B", "C", "D", "E", "F", "G", "H", "I", "J", "K", "L", "M", "N", "O", "P", "Q", "R",
+	"S", "T", "U", "V", "W", "X", "Y", "Z", "a", "b", "c", "d", "e", "f", "g", "h", "i", "j", "k", "l", "m", "n", "o", "p", "q", "r",
+	"s", "t", "u", "v", "w", "x", "y", "z", "fi", "fl", "ae", "oe", "germandbls"}
+
+// glyph names taken from a predefined encoding; the built-in encoding is that encoding restricted to
+// the glyphs 1..k (the others stay unencoded although their names have codes), optionally with one
+// more, non-predefined code.  What is written must come back code by code.
+func c13GenEncodingSubset(c *Ctx) {
+	r := c.Rng
+	n := 60
+	if c.Tier == "thorough" {
+		n = 600
+	}
+	for i := 0; i < n; i++ {
+		expert := i%3 == 2
+		pool := c13StdGlyphNames
+		if expert {
+			pool = cff.VerifExpertNames()
+		}
+		ng := r.Range(3, 12)
+		if i%7 == 0 {
+			ng = r.Range(13, min(60, len(pool)))
+		}
+		if ng > len(pool) {
+			ng = len(pool)
+		}
+		perm := make([]int, len(pool))
+		for j := range perm {
+			perm[j] = j
+		}
+		for j := len(perm) - 1; j > 0; j-- {
+			k := r.Intn(j + 1)
+			perm[j], perm[k] = perm[k], perm[j]
+		}
+		f := &c13Font{name: "Sub" + strconv.Itoa(i), ulPos: -100, ulThick: 50, full: true, fm: [6]float64{0.001, 0, 0, 0.001, 0, 0}}
+		f.names = []string{".notdef"}
+		for g := 1; g < ng; g++ {
+			f.names = append(f.names, pool[perm[g-1]])
+		}
+		// (some fonts: one glyph without a predefined name, at the end)
+		if r.Chance(1, 4) {
+			f.names[ng-1] = "c13x" + strconv.Itoa(i)
+		}
+		gl := make([]*cff.Glyph, ng)
+		for g := range gl {
+			gl[g] = &cff.Glyph{Name: f.names[g]}
+			f.widths = append(f.widths, float64(400+100*(g%4)))
+		}
+		f.fds = make([]int, ng)
+		f.privs = []c13Priv{{bs: 7, bf: 1, bscale: 0.039625}}
+		var full []glyph.ID
+		if expert {
+			full = cff.VerifExpertEncoding(gl)
+		} else {
+			full = cff.StandardEncoding(gl)
+		}
+		kind := i % 4
+		k := ng - 1 // all glyphs: the predefined encoding itself
+		if kind != 3 {
+			k = r.Range(1, ng-2)
+		}
+		f.encoding = make([]int, 256)
+		nEnc := 0
+		for code, g := range full {
+			if int(g) <= k && g != 0 {
+				f.encoding[code] = int(g)
+				nEnc++
+			}
+		}
+		label := "proper part"
+		switch kind {
+		case 2: // control: one more code outside the predefined encoding
+			for try := 0; try < 50; try++ {
+				code := r.Intn(256)
+				if f.encoding[code] == 0 && full[code] == 0 {
+					f.encoding[code] = r.Range(1, k)
+					break
+				}
+			}
+			label = "part + extra code"
+		case 3:
+			label = "whole"
+		}
+		if nEnc == 0 {
+			continue
+		}
+		// contiguity: the encoded glyphs must be 1..m
+		seen := map[int]bool{}
+		mx := 0
+		for _, g := range f.encoding {
+			if g != 0 {
+				seen[g] = true
+				if g > mx {
+					mx = g
+				}
+			}
+		}
+		if len(seen) != mx {
+			continue
+		}
+		c.Stat("encoding_subset", map[bool]string{true: "expert ", false: "standard "}[expert]+label)
+		c13EmitFont(c, f, true)
+	}
+}
+
+// ---------------------------------------------------------------------------------------
+// cross-defaults: every numeric field takes the default value of each other field of the same DICT,
+// and its own default +-1 (seeded change C13-r5m2)
+
+func c13GenCrossDefaults(c *Ctx) {
+	r := c.Rng
+	base := func(cidFDs int) *c13Font {
+		f := c13SweepFont(r, [5]int{5, 2, 0, 0, 0}, cidFDs, 2)
+		for p := range f.privs {
+			f.privs[p] = c13Priv{bs: 7, bf: 1, bscale: 0.039625}
+		}
+		return f
+	}
+	ulVals := []float64{-100, 50, 0, 1, 7, -99, -101, 49, 51, -50, 100, 0.5, -100.5, 50.5}
+	angleVals := []float64{0, -100, 50, 1, 7, -1, 0.001, 0.039625, -0.5}
+	intVals := []int{7, 1, 0, 6, 8, 2, 50, -100, -1}
+	scaleVals := []float64{0.039625, 0.039627, 0.039623, 0.03962, 0.001, 1, 0.05, 0.5} // (within 1e-6 of the default is not written)
+	stemVals := []float64{0, 1, 7, 50, 100, 0.039625, 0.001, 0.5}
+	matVals := []float64{0.001, 1, 0.039625, 0.002, 0.5}
+	emit := func(f *c13Font, label string) {
+		c.Stat("cross_default", label)
+		c13EmitFont(c, f, r.Chance(1, 3))
+	}
+	for _, nFD := range []int{0, 2} {
+		// one field at a time
+		for _, v := range ulVals {
+			f := base(nFD)
+			f.ulPos = v
+			emit(f, "UnderlinePosition")
+			f = base(nFD)
+			f.ulThick = v
+			emit(f, "UnderlineThickness")
+		}
+		for _, v := range angleVals {
+			f := base(nFD)
+			f.angle = v
+			emit(f, "ItalicAngle")
+		}
+		for _, v := range intVals {
+			f := base(nFD)
+			f.privs[len(f.privs)-1].bs = v
+			emit(f, "BlueShift")
+			f = base(nFD)
+			f.privs[0].bf = v
+			emit(f, "BlueFuzz")
+		}
+		for _, v := range scaleVals {
+			f := base(nFD)
+			f.privs[0].bscale = v
+			emit(f, "BlueScale")
+		}
+		for _, v := range stemVals {
+			f := base(nFD)
+			f.privs[0].hw = v
+			emit(f, "StdHW")
+			f = base(nFD)
+			f.privs[len(f.privs)-1].vw = v
+			emit(f, "StdVW")
+		}
+		for _, v := range matVals {
+			f := base(nFD)
+			f.fm = [6]float64{v, 0, 0, v, 0, 0}
+			emit(f, "FontMatrix")
+			if nFD > 0 {
+				f = base(nFD)
+				f.fms[1] = [6]float64{v, 0, 0, v, 0, 0}
+				emit(f, "FontMatrix (FD)")
+			}
+		}
+		for _, b := range []bool{true} {
+			f := base(nFD)
+			f.fixed = b
+			f.privs[0].forceBold = b
+			emit(f, "IsFixedPitch/ForceBold")
+		}
+		// widths at the defaults of the width operands and of their neighbours
+		for _, w := range []float64{0, 1, 7, 50, -100} {
+			f := base(nFD)
+			f.widths = []float64{w}
+			emit(f, "width")
+		}
+	}
+	// all fields at once, drawn from the pools
+	n := 40
+	if c.Tier == "thorough" {
+		n = 400
+	}
+	for i := 0; i < n; i++ {
+		f := base(Pick(r, []int{0, 0, 1, 2, 3}))
+		f.ulPos, f.ulThick, f.angle = Pick(r, ulVals), Pick(r, ulVals), Pick(r, angleVals)
+		f.fixed = r.Bool()
+		for p := range f.privs {
+			f.privs[p] = c13Priv{bs: Pick(r, intVals), bf: Pick(r, intVals), bscale: Pick(r, scaleVals), hw: Pick(r, stemVals),
+				vw: Pick(r, stemVals), forceBold: r.Bool()}
+			if f.isCID {
+				v := Pick(r, matVals)
+				f.fms[p] = [6]float64{v, 0, 0, v, 0, 0}
+			}
+		}
+		v := Pick(r, matVals)
+		f.fm = [6]float64{v, 0, 0, v, 0, 0}
+		emit(f, "all fields")
 	}
 }
